@@ -122,7 +122,6 @@ func (c *Ctx) deepestReaching(pkgRel string, preds ...func(*core.Call) bool) []*
 	return out
 }
 
-
 // guardedByNilResultDeep is guardedByNilResult for a guard call and a target that may sit in different helpers of root:
 // on every path of root (its package's helpers inlined) that executes target, the latest execution of guard before it
 // had its error result tested and found nil before target runs.
